@@ -53,10 +53,10 @@ def miri_cases(draw):
 
 
 def fixed_cases(tier):
+    out = [{"limits_matrix": r} for r in M.REPRS]      # deterministic: enums sitting on every integer type's limits
     if not miri.available():
-        return []
+        return out
     n = MIRI_CASES[tier]
-    out = []
     for b in range(0, n, MIRI_BATCH):
         out.append({"miri_batch": min(MIRI_BATCH, n - b), "batch_seed": 1000 + b})
     return out
@@ -213,7 +213,31 @@ def run_miri(out, subs):
     return out
 
 
+def run_limits(case):
+    from . import C01
+    out = J.Outcome()
+    modules, models, cfg = C01.limits_modules(case["limits_matrix"])
+    sc = C01.limits_script(case, models, cfg)
+    obs = J.run_script(out, modules, sc, ub_only=True)
+    if obs is not None:
+        starts = {}
+        for i, l in enumerate(sc.lines):
+            starts.setdefault(int(l.split(" ")[0]), []).append(i)
+        for k, m in enumerate(models):
+            sub = E.Script()
+            idx = starts.get(k, [])
+            sub.lines = [sc.lines[i] for i in idx]
+            judge_lines(out, m, sub, {j: obs[i] for j, i in enumerate(idx) if i < len(obs)}, "native debug build, limits matrix")
+    out.count("limits_matrix_enums", len(modules))
+    out.nontrivial = True
+    out.fingerprint = J.fp("limits_matrix", case["limits_matrix"])
+    out.sample = {"limits_matrix": case["limits_matrix"], "enums": len(modules)}
+    return out
+
+
 def run_case(case):
+    if "limits_matrix" in case:
+        return run_limits(case)
     if "miri_batch" in case:
         return run_miri_batch(case)
     if "miri_cases" in case:
